@@ -13,13 +13,13 @@ NumY = typing.TypeVar("NumY", bound=int)
 
 @wraps(Measure)
 def measure(
-    regions: tuple[grid.Grid[NumX, NumY], ...],
+    grids: tuple[grid.Grid[NumX, NumY], ...],
 ) -> tuple[MeasurementArray[NumX, NumY], ...]:
     """
     Measure the given regions and return the results.
 
     Args:
-        regions: A tuple of regions to measure.
+        grids: A tuple of regions to measure.
 
     Returns:
         A tuple of measurement results.
